@@ -41,6 +41,11 @@ func sameExprText(a, b ast.Expr) bool {
 }
 
 func fullIteration(info *types.Info, st ast.Stmt) *iteration {
+	return fullIterationIn(info, nil, st)
+}
+
+// fullIterationIn also reads a bound that was given a name in scope (`n := len(X); for i := 0; i < n; i++`).
+func fullIterationIn(info *types.Info, scope ast.Node, st ast.Stmt) *iteration {
 	it := &iteration{Stmt: st, info: info, elems: map[types.Object]bool{}}
 	switch t := st.(type) {
 	case *ast.RangeStmt:
@@ -79,6 +84,9 @@ func fullIteration(info *types.Info, st ast.Stmt) *iteration {
 			return ok && info.Uses[id] == it.idx
 		}
 		lenOf := func(e ast.Expr) ast.Expr {
+			if scope != nil {
+				e = resolveLocalCopy(info, scope, e)
+			}
 			call, ok := ast.Unparen(e).(*ast.CallExpr)
 			if !ok || len(call.Args) != 1 {
 				return nil
